@@ -216,6 +216,126 @@ let c13_lseq id shard thr ops =
     | _ -> failwith ("bad lseq op " ^ op) in
   Printf.printf "%s %s\n" id (String.concat ";" (List.map run (String.split_on_char ';' ops)))
 (* ---- C13 end ---- *)
+
+(* ---- C16 begin ---- the subscriber of sequence updates (Db/SeqWait.v: step_new) driven by the keys the DB model
+   generates; grammar in harness/cmd/db/c16_seq.go
+     sub <id> <shard> <thr> <prefix> <step>;...    W:<write> -> ok:<key|n> | err     A:<write> -> ok
+                                                   C -> committed | dropped    P, S, SR, SW -> ok
+                                                   R -> <key> | -              D -> <key>,... | - *)
+let c16_sub id shard thr prefix steps =
+  let cfg = { M.cfg_shard = mz_of_string shard; M.cfg_threshold = nat_of_int (int_of_string thr) } in
+  let prefix = bytes_of_hex prefix in
+  let st = ref M.init_state and sys = ref (M.init_sys []) in
+  (* pending write of an A step: state after it, whether it succeeds, the key it generated for the prefix *)
+  let pending = ref None in
+  let act a = match M.step_new !sys a with
+    | Some s -> sys := s
+    | None -> failwith "sub: step not enabled in the model (invalid schedule)" in
+  let run_write ts puts dels ranges off =
+    let ((st', r), evs) = M.process_write_full M.wrapper_callbacks cfg !st (c13_req puts dels ranges) (mz_of_string off) (n_of_string ts) in
+    let key = List.fold_left (fun acc (p, k) -> if p = prefix then Some k else acc) None evs in
+    (st', (match r with M.Ok _ -> true | M.Err _ -> false), key) in
+  let recv () = match (!sys).M.s_cell with
+    | Some _ -> let v = (!sys).M.s_cell in act M.Receive; v
+    | None -> None in
+  let run step = match String.split_on_char ':' step with
+    | ["W"; off; ts; puts; dels; ranges] ->
+      let (st', ok, key) = run_write ts puts dels ranges off in
+      st := st';
+      if not ok then "err" else begin
+        (match key with Some k -> act (M.PutApply k); act M.Commit; act M.Publish | None -> ());
+        "ok:" ^ (match key with Some k -> hex_of_bytes k | None -> "n")
+      end
+    | ["A"; "W"; off; ts; puts; dels; ranges] ->
+      let (st', ok, key) = run_write ts puts dels ranges off in
+      pending := Some (st', ok, key);
+      (match ok, key with true, Some k -> act (M.PutApply k) | _ -> ());
+      "ok"
+    | ["C"] ->
+      (match !pending with
+       | Some (st', true, key) -> st := st'; (match key with Some _ -> act M.Commit | None -> ()); "committed"
+       | Some (st', false, _) -> st := st'; pending := None; "dropped"
+       | None -> failwith "sub: C without A")
+    | ["P"] ->
+      (match !pending with
+       | Some (_, true, Some _) -> act M.Publish
+       | _ -> ());
+      pending := None; "ok"
+    | ["S"] -> act M.SubRegister; act M.SubRead; act M.SubWrite; "ok"
+    | ["SR"] -> act M.SubRegister; act M.SubRead; "ok"
+    | ["SW"] -> act M.SubWrite; "ok"
+    | ["R"] -> (match (!sys).M.s_sub with
+                | M.SubDone -> (match recv () with Some v -> hex_of_bytes v | None -> "-")
+                | _ -> "-")
+    | ["D"] -> (match (!sys).M.s_sub with
+                | M.SubDone ->
+                  let rec go acc = match recv () with Some v -> go (hex_of_bytes v :: acc) | None -> List.rev acc in
+                  join "," (go [])
+                | _ -> "-")
+    | _ -> failwith ("bad sub step " ^ step) in
+  Printf.printf "%s %s\n" id (String.concat ";" (List.map run (String.split_on_char ';' steps)))
+(* ---- C16 end ---- *)
+(* ---- C17 begin ---- notification stream (Db/NotifStream.v); grammar in harness/cmd/db/c17_notif.go and harness/cmd/notif/main.go
+     nseq <id> <shard> <thr> <op>;...    the ops of "seq" plus
+        X:<now>:<retention>        one trimming round                       -> trimmed | nothing | err
+        Q:<from>                   dispatch loop on the quiescent DB         -> <batch>,...|wait:<o>  (spin:<o> | err:<kind> | fuel)
+        GN:<start|n>:<qc>          one GetNotifications call on the quiescent DB (qc = the leader's commit offset)
+                                   -> <batch>,...  (dummy batch first when there is no start offset) | err:<kind>
+        CC<i>:<k>:<qc>             subscriber i (re)connects, receives at most k batches, the stream breaks
+                                   -> req=<n|offset>|ev=<key~kind&...>|last=<lastOffsetReceived>
+        CL<i>:<qc>                 subscriber i, still connected, receives what was committed meanwhile -> ev=...|last=...
+        L:<0|1>                    a new leader (term options: notifications enabled?) replays the log (all W ops so far)
+                                   into an empty store -> ok *)
+let c17_stop_s = function
+  | M.DWait o -> "wait:" ^ string_of_mz o | M.DSpin o -> "spin:" ^ string_of_mz o
+  | M.DErr e -> err_out e | M.DFuel -> "fuel"
+let c17_stream_s (bs, stop) = join "," (List.map batch_s bs) ^ "|" ^ c17_stop_s stop
+let rec c17_firstn n l = if n <= 0 then [] else match l with [] -> [] | x :: tl -> x :: c17_firstn (n - 1) tl
+let c17_events evs = join "&" (List.sort compare (List.concat_map (fun (_, ns) -> List.map notif_s ns) evs))
+let c17_nseq id shard thr ops =
+  let cfg = { M.cfg_shard = mz_of_string shard; M.cfg_threshold = nat_of_int (int_of_string thr) } in
+  let st = ref M.init_state and log = ref [] in
+  let clients = Hashtbl.create 8 in
+  let client i = match Hashtbl.find_opt clients i with Some c -> c | None -> M.client_new in
+  let suffix s = String.sub s 2 (String.length s - 2) in
+  let run op = match String.split_on_char ':' op with
+    | ["X"; now; ret] ->
+      (match M.trim !st (mz_of_string now) (mz_of_string ret) with
+       | M.TrNothing -> "nothing" | M.TrErr _ -> "err" | M.TrTrimmed (_, st') -> st := st'; "trimmed")
+    | ["Q"; from] -> c17_stream_s (M.dispatch (nat_of_int 1000) !st (mz_of_string from))
+    | ["GN"; start; qc] ->
+      (match M.serve cfg !st (mz_of_string qc) (opt_z start) with
+       | (_, M.DErr e) -> err_out e
+       | (bs, _) -> join "," (List.map batch_s bs))
+    | [cc; k; qc] when String.length cc > 2 && String.sub cc 0 2 = "CC" ->
+      let i = suffix cc in
+      let c = client i in
+      let req = M.client_request c in
+      let (bs, _) = M.serve cfg !st (mz_of_string qc) req in
+      let (c', evs) = M.client_recv_all c (c17_firstn (int_of_string k) bs) in
+      Hashtbl.replace clients i c';
+      "req=" ^ str_opt_z req ^ "|ev=" ^ c17_events evs ^ "|last=" ^ string_of_mz c'.M.cl_last
+    | [cl; _qc] when String.length cl > 2 && String.sub cl 0 2 = "CL" ->
+      let i = suffix cl in
+      let c = client i in
+      let (bs, _) = M.dispatch (nat_of_int 1000) !st c.M.cl_last in
+      let (c', evs) = M.client_recv_all c bs in
+      Hashtbl.replace clients i c';
+      "ev=" ^ c17_events evs ^ "|last=" ^ string_of_mz c'.M.cl_last
+    | ["L"; en] ->
+      let s = ref (M.enable_notifications M.init_state (en = "1")) in
+      List.iter (fun (req, off, ts) -> let ((s', _), _) = M.process_write_full M.wrapper_callbacks cfg !s req off ts in s := s') (List.rev !log);
+      st := !s; "ok"
+    | _ ->
+      (match String.split_on_char ':' op with
+       | ["W"; off; ts; puts; dels; ranges] ->
+         let req = { M.w_puts = List.map put_of (list_of '|' puts); M.w_dels = List.map del_of (list_of '|' dels);
+                     M.w_ranges = List.map range_of (list_of '|' ranges) } in
+         log := (req, mz_of_string off, n_of_string ts) :: !log
+       | _ -> ());
+      let (st', r) = run_op false cfg !st op in st := st'; r in
+  Printf.printf "%s %s\n" id (String.concat ";" (List.map run (String.split_on_char ';' ops)))
+(* ---- C17 end ---- *)
 let cmp_s = function M.Lt -> "-1" | M.Eq -> "0" | M.Gt -> "1"
 let () = read_lines (fun line ->
   match String.split_on_char ' ' line with
@@ -236,5 +356,7 @@ let () = read_lines (fun line ->
   | ["snapload"; id; msgs] -> c06_snapload id msgs
   | ["val"; id; op] -> c13_val id op
   | ["lseq"; id; shard; thr; ops] -> c13_lseq id shard thr ops
+  | ["sub"; id; shard; thr; prefix; steps] -> c16_sub id shard thr prefix steps
+  | ["nseq"; id; shard; thr; ops] -> c17_nseq id shard thr ops
   | [] | [""] -> ()
   | _ -> Printf.printf "?? bad line: %.200s\n" line)
